@@ -596,3 +596,64 @@ class H2Server(Peer):
                 self.conn.send_data(stream_id, body[pos : pos + n])
                 pos += n
         self.conn.send_data(stream_id, body[pos:], end_stream=True)
+
+
+class AutoOrigin(Peer):
+    """Origin that speaks whatever the client starts speaking (HTTP/2 if the
+    connection preface arrives, HTTP/1.1 otherwise) and picks the ALPN protocol
+    by its own preference among those offered."""
+
+    PREFACE = b"PRI * HTTP/2.0\r\n\r\nSM\r\n\r\n"
+
+    def __init__(self, prefer: str = "h2", respond: Responder = echo_responder, label: typing.Any = None) -> None:
+        super().__init__()
+        self.prefer = prefer
+        self.respond = respond
+        self.label = label
+        self.inner: Peer | None = None
+        self.buf = b""
+        self.tls_seen: list[tuple[typing.Any, typing.Any, typing.Any]] = []
+        self.raw = b""
+
+    def on_tls(self, server_hostname: str | None, offered: list[str] | None) -> str | None:
+        sel = None
+        if offered:
+            if self.prefer in offered:
+                sel = self.prefer
+            elif "http/1.1" in offered:
+                sel = "http/1.1"
+            else:
+                sel = offered[0]
+        self.tls_seen.append((server_hostname, offered, sel))
+        return sel
+
+    def receive(self, data: bytes) -> None:
+        self.raw += data
+        if self.inner is None:
+            self.buf += data
+            n = min(len(self.buf), len(self.PREFACE))
+            if self.buf[:n] == self.PREFACE[:n]:
+                if n < len(self.PREFACE):
+                    return
+                self.inner = H2Server()
+            else:
+                self.inner = H1Server(respond=self.respond)
+            data, self.buf = self.buf, b""
+        self.inner.receive(data)
+        self.out += self.inner.out
+        self.inner.out = b""
+        if self.inner.closed:
+            self.closed = True
+
+    @property
+    def speaks(self) -> str | None:
+        if self.inner is None:
+            return None
+        return "h2" if isinstance(self.inner, H2Server) else "h1"
+
+    def targets(self) -> list[bytes]:
+        if isinstance(self.inner, H2Server):
+            return [self.inner.path(sid) for sid in self.inner.order]
+        if isinstance(self.inner, H1Server):
+            return [r.target for r in self.inner.requests]
+        return []
